@@ -95,6 +95,8 @@ def floor(ctx, keys, seed):
         ctx.count('inputs-parsed', d['parsed'])
         ctx.count('inputs-all-laws-hold', d['laws_ok'])
         ctx.count('explicit-refusals(container content not understood)', d['refusals'])
+        if d.get('nonzero_padding'):
+            ctx.count('inputs-with-nonzero-reserved-attribute:' + key, d['nonzero_padding'])
         for pk, c in d['parse_fail'].items():
             ctx.count('parse-failure:' + pk.split(':', 1)[1], c)
         for c in d['cases']:
